@@ -21,3 +21,13 @@ define %sv @f(i8* align u0x8 %p, %sv %v) {
   %w = add %sv %v, %v
   ret %sv %w
 }
+
+; several attachments of one kind on global objects (CFI / whole-program-vtable builds emit `!type` like this)
+@vt = constant [2 x i8*] zeroinitializer, !type !0, !type !1, !type !2, !foo !0
+declare !type !0 !type !1 void @decl()
+define void @def() !type !1 !type !2 !foo !1 {
+  ret void
+}
+!0 = !{i64 16, !"_ZTS1A"}
+!1 = !{i64 16, !"_ZTS1B"}
+!2 = !{i64 16, !"_ZTSM1BFvvE.virtual"}
